@@ -118,33 +118,34 @@ class H:
         sim.log("ctx_new", ctx=cid, parent=self.cid(ctx.parent), exp=exp)
         self.observe()
         try:
-            async with ctx:
-                sim.log("ctx_enter", ctx=cid)
-                async with ctx.resource_added.stream_events(max_queue_size=100000) as stream:
-                    try:
+            # the listener is opened before the context is entered and drained after it has
+            # been left, so publications made during teardown are heard too
+            async with ctx.resource_added.stream_events(max_queue_size=100000) as stream:
+                try:
+                    async with ctx:
+                        sim.log("ctx_enter", ctx=cid)
                         await self.acts(b.get("body", ()), cid)
-                    finally:
-                        # drain the listener: everything dispatched so far is queued
-                        try:
-                            ctx.resource_added.dispatch(ResourceEvent((), SENTINEL, None, False))
-                            with anyio.CancelScope(shield=True):
-                                async for ev in stream:
-                                    if ev.resource_name == SENTINEL:
-                                        break
-                                    sim.log(
-                                        "event",
-                                        ctx=cid,
-                                        types=[tname(t) for t in ev.resource_types],
-                                        name=ev.resource_name,
-                                        desc=ev.resource_description,
-                                        is_factory=ev.is_factory,
-                                        source=self.cid(ev.source),
-                                        topic=ev.topic,
-                                    )
-                        except BaseException as e:  # noqa: BLE001
-                            sim.log("note", what="drain_failed", exc=f"{type(e).__name__}: {e}")
-                            raise
-                sim.log("body_end", ctx=cid)
+                        sim.log("body_end", ctx=cid)
+                finally:
+                    try:
+                        ctx.resource_added.dispatch(ResourceEvent((), SENTINEL, None, False))
+                        with anyio.CancelScope(shield=True):
+                            async for ev in stream:
+                                if ev.resource_name == SENTINEL:
+                                    break
+                                sim.log(
+                                    "event",
+                                    ctx=cid,
+                                    types=[tname(t) for t in ev.resource_types],
+                                    name=ev.resource_name,
+                                    desc=ev.resource_description,
+                                    is_factory=ev.is_factory,
+                                    source=self.cid(ev.source),
+                                    topic=ev.topic,
+                                )
+                    except BaseException as e:  # noqa: BLE001
+                        sim.log("note", what="drain_failed", exc=f"{type(e).__name__}: {e}")
+                        raise
         except BaseException as e:
             sim.log("ctx_exit", ctx=cid, exc=f"{type(e).__name__}")
             self.observe()
@@ -208,8 +209,14 @@ class H:
         if spec.get("td"):
             tdid = "td_" + self.vtag(value)
 
+            late = spec.get("late_add")
+
             def cb(tdid: str = tdid, tgt: str = tgt) -> None:
                 sim.log("td_run", ctx=tgt, td=tdid)
+                if late:
+                    # publish from inside the teardown of the very context
+                    self.do_add({**late, "target": tgt}, tgt)
+                    self.observe()
 
             kwargs["teardown_callback"] = cb
         if spec.get("desc"):
@@ -267,6 +274,8 @@ class H:
                 if spec.get("raises"):
                     sim.fault("raise_in_factory")
                     sim.log("fac_abort", fid=fid, why="raise")
+                    if spec["raises"] == "notfound":
+                        current_context().get_resource_nowait(rtypes.Val, "no_such_dependency")
                     raise SimError(f"factory {fid}")
                 v = produce()
                 sim.log("fac_done", fid=fid, val=h.vtag(v))
@@ -280,6 +289,8 @@ class H:
                     await sim.pause(spec.get("ticks", 0), spec.get("dur", 0.0))
                     if spec.get("raises"):
                         sim.fault("raise_in_factory")
+                        if spec["raises"] == "notfound":
+                            await current_context().get_resource(rtypes.Val, "no_such_dependency")
                         raise SimError(f"factory {fid}")
                 except BaseException as e:
                     sim.log("fac_abort", fid=fid, why="cancel" if is_cancel(e) else "raise")
@@ -343,6 +354,7 @@ class H:
             kind=spec.get("kind", "sync"),
             desc=spec.get("desc"),
             bad=bad,
+            raises=spec.get("raises"),
         )
         if bad:
             sim.fault("invalid_call")
@@ -505,6 +517,7 @@ def execute(plan: dict, *, want_digest: bool = False, want_trace: bool = False) 
         "vtime": sim.end_time,
         "sig": sim.signature(),
         "deadlock": sim.deadlock,
+        "crashed": sim.crashed,
         "step_limit": sim.step_limit,
         "nontrivial": len({r[3] for r in sim.trace}) >= 2 or sum(sim.faults.values()) > 0,
         "final": _final(sim),
@@ -666,7 +679,7 @@ def oracle(sim: Sim, plan: dict) -> list[dict]:
                     v("C03.conflict", "fac_accepted", f"second factory for {[k for k in keys if k in m.factories]} accepted on {b['ctx']}")
                 if invalid:
                     v("C03.invalid", f"accepted:{bad or 'name'}", f"invalid add_resource_factory ({bad or 'bad name'}) accepted")
-                f = {"fid": b["fid"], "types": tuple(b["types"]), "name": b["name"], "kind": b["kind"], "desc": b.get("desc")}
+                f = {"fid": b["fid"], "types": tuple(b["types"]), "name": b["name"], "kind": b["kind"], "desc": b.get("desc"), "raises": b.get("raises")}
                 fac_specs[b["fid"]] = f
                 for k in keys:
                     m.factories[k] = f
@@ -763,7 +776,9 @@ def oracle(sim: Sim, plan: dict) -> list[dict]:
                 entry = {"val": d["val"], "types": f["types"], "name": f["name"], "gen": True}
                 for t in f["types"]:
                     m.static.setdefault((t, f["name"]), entry)
-                m.events.append({"types": list(f["types"]), "name": f["name"], "desc": f.get("desc"), "is_factory": False})
+                if gen_done[(fid, ctx_id)] == 1:
+                    # only the first generation of a factory in a context is a publication
+                    m.events.append({"types": list(f["types"]), "name": f["name"], "desc": f.get("desc"), "is_factory": False})
                 mutated(ctx_id)
                 L["own_muts"] = L.get("own_muts", 0) + 1
         elif kind == "get_end":
@@ -804,7 +819,7 @@ def oracle(sim: Sim, plan: dict) -> list[dict]:
                         v("C04.asyncerror", "ran", f"{where}: async factory body ran under the sync API")
                 else:
                     cur = m.static.get((b["type"], b["name"]))
-                    if out == "factory_raised":
+                    if out == "factory_raised" or (out == "notfound" and f.get("raises") == "notfound" and L["runs"]):
                         if cur is not None and L["ok_runs"]:
                             v("C04.failed_gen", "registered", f"{where}: raising factory left a resource behind")
                     elif out == "ok":
@@ -866,8 +881,10 @@ def oracle(sim: Sim, plan: dict) -> list[dict]:
                 for (t, n, _o), val in zip(b["deps"], want_vals):
                     note_handed(b["ctx"], t, n, val, where)
             elif want_out == "factory_raised_or_cancelled":
-                if d["out"] not in ("factory_raised",):
+                if d["out"] not in ("factory_raised",) and not (d["out"] == "notfound" and L["runs"]):
                     v("C19.equiv", "factory", f"{where}: expected the factory's failure, got {d['out']}/{d['vals']}")
+                if d["body_ran"]:
+                    v("C19.before_body", "factory", f"{where}: function body ran although a dependency's factory failed")
             else:
                 if d["out"] != want_out:
                     v("C19.equiv", want_out, f"{where}: expected {want_out}, got {d['out']}/{d['vals']}")
@@ -969,6 +986,8 @@ class G:
                 spec["cls"] = rng.choice([t for t in self.tn if t != "L"] or ["A"])
             if rng.random() < 0.3:
                 spec["td"] = True
+                if rng.random() < 0.35:
+                    spec["late_add"] = {"types": self.types(0.2), "name": rng.choice(self.names), "desc": "late"}
             if rng.random() < 0.2:
                 spec["desc"] = f"d{rng.randint(1, 9)}"
             if rng.random() < 0.3:
@@ -993,8 +1012,8 @@ class G:
                 spec["dur"] = rng.choice(DTS[:5])
                 if rng.random() < 0.35:
                     spec["wrap"] = rng.choice(("lambda", "callable"))
-            if rng.random() < 0.12:
-                spec["raises"] = True
+            if rng.random() < 0.15:
+                spec["raises"] = "notfound" if rng.random() < 0.4 else True
             r = rng.random()
             if r < 0.25:
                 spec["annot"] = rng.choice(("union", "pep604"))
@@ -1065,14 +1084,43 @@ class G:
                 for _ in range(rng.randint(2, 3 if self.prop != "C04" else 4)):
                     self.ntask += 1
                     brs.append({"name": f"t{self.ntask}", "body": self.body(lineage, depth + 1, rng.randint(1, 4))})
-                # racing lookups of one key in the same context
-                if rng.random() < (0.7 if self.prop == "C04" else 0.3):
+                # racing lookups in the same context: of one key, or of different types
+                # under one name (the types of one multi-type factory)
+                if rng.random() < (0.7 if self.prop == "C04" else 0.5 if self.prop == "C18" else 0.3):
                     key = {"type": rng.choice(self.tn), "name": rng.choice(self.names)}
+                    spread = rng.random() < 0.5
                     for br in brs:
+                        k2 = dict(key)
+                        if spread:
+                            k2["type"] = rng.choice(self.tn)
                         br["body"].insert(
                             rng.randint(0, len(br["body"])),
-                            ["get", {**key, "api": rng.choice(("get", "get", "mod_get", "nowait"))}],
+                            ["get", {**k2, "api": rng.choice(("get", "get", "mod_get", "nowait"))}],
                         )
+                # the same injected function called concurrently from different contexts
+                if self.prop == "C19" and rng.random() < 0.5 and self.nctx + len(brs) <= self.max_ctx:
+                    fn = rng.choice(("a_two", "a_three_names", "a_two", "s_two"))
+                    deps = CATALOGUE[fn][2]
+                    pre: list = []
+                    for (_p, tname_, rname, _opt) in deps[1:]:
+                        self.nfac += 1
+                        pre.append(
+                            ["fac", {"fid": f"f{self.nfac}", "types": [tname_], "name": rname, "kind": "async" if fn != "s_two" else "sync", "ticks": rng.choice((0, 1)), "dur": rng.choice((0.25, 0.5, 1.0))}]
+                        )
+                    out.extend(pre)
+                    first = deps[0]
+                    for br in brs:
+                        self.nctx += 1
+                        blk = {
+                            "id": f"x{self.nctx}",
+                            "parent": "implicit",
+                            "body": [
+                                ["add", {"types": [first[1]], "name": first[2]}],
+                                rpause(rng),
+                                ["inj", {"fn": fn, "posx": rng.random() < 0.5}],
+                            ],
+                        }
+                        br["body"].insert(rng.randint(0, len(br["body"])), ["child", blk])
                 out.append(["par", brs])
             else:
                 out.append(self.act(lineage, depth))
